@@ -98,6 +98,14 @@ def _rand_reg(rng, focus_port, cbs):
     return [port, pmask, chan, cmask, rng.choice(cbs), via]
 
 
+def _with_plens(rng, case):
+    """Half of the random cases carry payloads of length 0 / 1 / 2 / 30 and headers biased to the ends of the range."""
+    if rng.random() < 0.5:
+        case['plens'] = [rng.choice([0, 0, 1, 2, 30]) for _ in case['pkts']]
+        case['pkts'] = [(h | 0xF0 | rng.choice([0, 3])) if rng.random() < 0.1 else h for h in case['pkts']]
+    return case
+
+
 def gen_case(rng, oracle=False):
     """Random case.  oracle=True: separate id spaces for port and all-packet callbacks, all-packet scripts never
     raise (the property text isolates port-callback exceptions only)."""
@@ -152,7 +160,7 @@ def gen_case(rng, oracle=False):
             scs.append([rand_op(c, c >= ALL_BASE) for _ in range(rng.choice([0, 1, 1, 2, 3]))])
         if scs:
             beh[str(c)] = scs
-    return {'regs': regs, 'alls': alls, 'pkts': pkts, 'beh': beh}
+    return _with_plens(rng, {'regs': regs, 'alls': alls, 'pkts': pkts, 'beh': beh})
 
 
 def gen_long_case(rng, oracle=False):
@@ -184,7 +192,7 @@ def gen_long_case(rng, oracle=False):
                 sc.append(['raise'])
             scs.append(sc)
         beh[str(c)] = scs
-    return {'regs': regs, 'alls': alls, 'pkts': pkts, 'beh': beh}
+    return _with_plens(rng, {'regs': regs, 'alls': alls, 'pkts': pkts, 'beh': beh})
 
 
 def long_fixed_cases():
@@ -196,6 +204,26 @@ def long_fixed_cases():
         out.append({'regs': [[2, 255, 0, 0, 1], [2, 255, 0, 0, 2]], 'alls': [], 'pkts': [0x2C] * 40, 'beh': {'1': scs}})
     out.append({'regs': [[2, 255, 0, 0, 1], [2, 14, 1, 1, 2]], 'alls': [ALL_BASE], 'pkts': [0x2D, 0x3D] * 15,
                 'beh': {'1': [[['raise']]] * 32, '2': [[['raise']]] * 32}})
+    return out
+
+
+def header_sweep_cases():
+    """All 256 header bytes x payload lengths {0, 1, 2, 30} against every kind of registration: one port callback per
+    port, exact header callbacks (default masks) for the link-control and one other header, wildcard (all masks 0),
+    channel-only, port-only-by-mask, high-bit port masks.  One case per payload length."""
+    regs = [[p, 255, 0, 0, p + 1] for p in range(16)]                       # add_port_callback(p)
+    regs += [[0, 0, 0, 0, 20]]                                               # wildcard
+    regs += [[0, 0, ch, 3, 21 + ch] for ch in range(4)]                      # channel only
+    regs += [[15, 255, 3, 255, 30], [2, 255, 1, 255, 31]]                    # exact header (default masks)
+    regs += [[15, 15, 0, 0, 32], [12, 12, 3, 3, 33], [15, 255, 2, 2, 34]]    # masked port / channel
+    out = []
+    for plen in (0, 1, 2, 30):
+        out.append({'regs': [list(r) for r in regs], 'alls': [ALL_BASE], 'pkts': list(range(256)), 'plens': [plen] * 256,
+                    'beh': {}})
+    # the same headers with mixed payload lengths next to each other, and a raising link-control callback
+    hs = [0xF3, 0xF7, 0xFB, 0xFF, 0xF0, 0x0F, 0x00, 0xFC]
+    out.append({'regs': [list(r) for r in regs], 'alls': [], 'pkts': [h for h in hs for _ in range(4)],
+                'plens': [0, 1, 2, 30] * len(hs), 'beh': {'16': [[['raise']]] * 40}})
     return out
 
 
@@ -263,7 +291,7 @@ def corpus_cases():
 
 
 def tie(ctx):
-    cases = corpus_cases() + long_fixed_cases() + list(enum_cases(0))
+    cases = corpus_cases() + header_sweep_cases() + long_fixed_cases() + list(enum_cases(0))
     for _ in range(ctx.scale(1200, 30000)):
         cases.append(gen_case(ctx.rng, oracle=ctx.rng.random() < 0.3))
     for _ in range(ctx.scale(40, 600)):
@@ -400,7 +428,7 @@ def check_case(case):
         return {'class': cls, 'case': case, 'expected': expected, 'observed': observed if observed is not None else log,
                 'detail': detail}
     if res['diverged']:
-        return fail('dispatch_does_not_terminate', 'more than %d callback invocations' % drv.MAX_CALLS)
+        return fail('dispatch_does_not_terminate', 'more than %d callback invocations' % (drv.MAX_CALLS + 40 * len(case['pkts'])))
     if res['died'] is not None or res['consumed'] != len(case['pkts']):
         return fail('dispatcher_loop_ended_by_exception', 'run() left by %s after %d packets' % (res['died'], res['consumed']))
     pks = [n for _, n in log]
@@ -444,7 +472,7 @@ def check_case(case):
 def oracle(ctx, deep=False):
     fails = []
     n = 0
-    cases = corpus_cases() + long_fixed_cases() + list(enum_cases(1))
+    cases = corpus_cases() + header_sweep_cases() + long_fixed_cases() + list(enum_cases(1))
     for _ in range(ctx.scale(400, 6000) * (3 if deep else 1)):
         cases.append(gen_long_case(ctx.rng, oracle=True))
     for _ in range(ctx.scale(20000, 300000) * (3 if deep else 1)):
@@ -485,6 +513,8 @@ def _shrink(f):
             i = 0
             while i < len(case[key]):
                 c2 = dict(case, **{key: case[key][:i] + case[key][i + 1:]})
+                if key == 'pkts' and case.get('plens') is not None:
+                    c2['plens'] = case['plens'][:i] + case['plens'][i + 1:]
                 if len(c2['pkts']) and attempt(c2):
                     changed = True
                 else:
